@@ -132,6 +132,9 @@ type vc05UpCall struct {
 
 type vc05Upstream struct {
 	calls []vc05UpCall
+
+	// edeSent counts answers that carried an extended DNS error option.
+	edeSent int
 }
 
 func vc05Scoped(name string) bool {
@@ -202,6 +205,22 @@ func (u *vc05Upstream) ServeDNS(ctx context.Context, rw dnsserver.ResponseWriter
 		}
 
 		opt.Option = append(opt.Option, &dns.EDNS0_SUBNET{Code: dns.EDNS0SUBNET, Family: e.Family, SourceNetmask: e.SourceNetmask, SourceScope: scope, Address: addr})
+	}
+
+	// For a quarter of the names the upstream also sends an extended DNS error
+	// option (RFC 8914 allows it in any response), before or after the ECS
+	// echo: the cache keeps that option for the client and must still strip
+	// everything else.
+	if opt := resp.IsEdns0(); opt != nil {
+		if h := vdns.Hash("ede|" + strings.ToLower(q.Name)); h%4 == 0 {
+			u.edeSent++
+			ede := &dns.EDNS0_EDE{InfoCode: dns.ExtendedErrorCodeOther, ExtraText: "upstream note"}
+			if h&4 == 0 {
+				opt.Option = append([]dns.EDNS0{ede}, opt.Option...)
+			} else {
+				opt.Option = append(opt.Option, ede)
+			}
+		}
 	}
 
 	return rw.WriteMsg(ctx, req, resp)
